@@ -91,6 +91,19 @@ func generate(key echx.KeyPair, b base, thorough bool) []fault {
 		h.Exts = slices.Insert(h.Exts, pos, tlsref.ECHInner())
 		add("outer-ech-type-inner", fmt.Sprint(pos), []string{IP}, h.Record())
 	}
+	// ... also when the outer hello does not offer TLS 1.3 (no supported_versions / 1.2 only)
+	for vi, sv := range [][]uint16{nil, {0x0303}, {0x0303, 0x0302}} {
+		base := plain.Clone()
+		base.Exts = slices.DeleteFunc(base.Exts, func(e tlsref.Ext) bool { return e.Type == tlsref.ExtSupportedVersions })
+		if sv != nil {
+			base.Exts = append(base.Exts, tlsref.SupportedVersions(sv...))
+		}
+		for pos := 0; pos <= len(base.Exts); pos++ {
+			h := base.Clone()
+			h.Exts = slices.Insert(h.Exts, pos, tlsref.ECHInner())
+			add("outer-ech-type-inner-no-tls13", fmt.Sprintf("sv%d pos%d", vi, pos), []string{IP}, h.Record())
+		}
+	}
 	// F3 unknown ECH type
 	for _, t := range []byte{2, 3, 127, 255} {
 		h := good.Outer.Clone()
